@@ -1,7 +1,7 @@
 """C01 - a dead worker always has one definite, consistent and stable outcome."""
 import ast
 
-from ..astutil import (split_if, AnalysisError, dotted, calls_in, last_attr, receiver, norm, is_name, walk_local, is_self_attr,
+from ..astutil import (receiver_texts, split_if, AnalysisError, dotted, calls_in, last_attr, receiver, norm, is_name, walk_local, is_self_attr,
                        loc, short, parent_map)
 from ..cfg import is_flow, path_str
 from ..lifecycle import lifecycle, worker_classes, kind_of, landing_label, handler_context
@@ -374,7 +374,7 @@ def check_process_parent(ctx, cls, lc, seen):
             if f is lc.main:
                 continue
             for call in calls_in(f.node):
-                if last_attr(call) == 'close' and receiver(call) == chan_end:
+                if last_attr(call) == 'close' and chan_end in receiver_texts(f.node, call):
                     n_close += 1
                     ok = False
                     if f is gr:
